@@ -157,7 +157,9 @@ Fixpoint batches_loop {A} (fuel n i : nat) (s : list A) : list (list A) :=
       else []
   end.
 Definition batches {A} (s : list A) (n : Z) : list (list A) :=
-  if (length s =? 0) || (n <=? 0)%Z then [] else batches_loop (length s) (Z.to_nat n) 0 s.
+  (* a batch size beyond the length behaves like the length (one batch): clamped so that the model stays computable for
+     sizes such as MaxInt — the Go loop computes min(i+batchSize, len(s)) *)
+  if (length s =? 0) || (n <=? 0)%Z then [] else batches_loop (length s) (Z.to_nat (Z.min n (Z.of_nat (length s)))) 0 s.
 
 (* ReverseSlice: for i := 0; i < length/2; i++ { swap s[i], s[length-i-1] } *)
 Fixpoint rev_loop {A} (k i : nat) (b : list A) : list A :=
